@@ -1045,6 +1045,27 @@ func (env *Env) evalCall(e *Expr) EV {
 		fname := map[string]string{"errType": "errorType", "errFailure": "failure", "errUrl": "url", "errDescr": "descr", "errCause": "cause"}[name]
 		s, _ := structOf(vt)
 		return env.selectField(x.T, vt, s, fieldIndex(s, fname))
+	case "resultOf":
+		// resultOf("<function key>", args...): the value the heap-pure function returns in the current state
+		if len(e.Args) < 1 || e.Args[0].Op != "str" {
+			efail("resultOf expects a function key string")
+		}
+		fn := env.w.fnByKey[e.Args[0].Str]
+		if fn == nil {
+			efail("resultOf: unknown function %s", e.Args[0].Str)
+		}
+		if env.st == nil {
+			efail("resultOf in pure context")
+		}
+		var ats []Term
+		for _, a := range e.Args[1:] {
+			ats = append(ats, env.eval(a).T)
+		}
+		pt, rs := env.w.pureResultTerm(fn, env.st, ats, 0)
+		if pt == "" {
+			efail("resultOf: %s is not a heap-pure deterministic function", e.Args[0].Str)
+		}
+		return EV{pt, rs, fn.Signature.Results().At(0).Type()}
 	case "asParams":
 		// the []*NameValuePair boxed in an interface value (argument of sort.SliceStable)
 		argn(1)
